@@ -164,7 +164,7 @@ func tryRecursiveValidate(val reflect.Value, opts *options, validators []validat
 	case reflect.Map:
 		err = validateMap(val, opts)
 	case reflect.Array, reflect.Slice:
-		err = validateArray(val, opts)
+		err = validateArray(val, opts, validators)
 	}
 
 	if err != nil {
@@ -216,13 +216,34 @@ func validateMap(val reflect.Value, opts *options) error {
 	return nil
 }
 
-func validateArray(val reflect.Value, opts *options) error {
+// validateArray validates the elements of a list that were not read from the
+// configuration (pre-filled defaults). The validators of the list's field
+// apply to every primitive element, also of nested lists, exactly like
+// reifyPrimitive applies them to the elements read from the configuration.
+func validateArray(val reflect.Value, opts *options, validators []validatorTag) error {
+	val = chaseValue(val)
 	for i := 0; i < val.Len(); i++ {
-		if err := tryRecursiveValidate(val.Index(i), opts, nil); err != nil {
+		if err := validateKeptElem(val.Index(i), opts, validators); err != nil {
 			return err
 		}
 	}
 	return nil
+}
+
+func validateKeptElem(elem reflect.Value, opts *options, validators []validatorTag) error {
+	switch chaseValue(elem).Kind() {
+	case reflect.Struct, reflect.Map, reflect.Ptr, reflect.Interface, reflect.Invalid:
+		// (objects take their validators from their own fields; a nil pointer
+		// or interface has no value to check)
+		return tryRecursiveValidate(elem, opts, nil)
+	case reflect.Array, reflect.Slice:
+		if err := validateArray(elem, opts, validators); err != nil {
+			return err
+		}
+		return tryValidate(elem)
+	default:
+		return tryRecursiveValidate(elem, opts, validators)
+	}
 }
 
 // validateNonZero implements the `nonzero` validation tag.
